@@ -8,7 +8,7 @@ git -C /repo worktree add --detach /tmp/seed/wt$W-$PID HEAD >/dev/null 2>&1
 {
 echo
 echo "Changes of the following kinds were ALREADY produced by earlier engineers for this property - produce DIFFERENT ones (other functions, other mechanisms). Favour slips that stay invisible in ordinary single calls: state carried between calls on one object, caches, order of calls, two results sharing an object, unusual but legal argument forms or numeric types, boundary values of parameters, rarely taken branches, two cooperating sites that each look fine alone, behaviour after an exception was raised and caught:"
-for d in /verif/seeded/$PID-[stu]*; do
+for d in /verif/seeded/$PID-[stuv]*; do
   [ -f $d/note.md ] && grep -v '^#' $d/note.md | grep -v '^\s*$' | head -2 | cut -c1-260 | sed 's/^/  - /'
 done
 } >> /tmp/seed/prompt$W-$PID.txt
